@@ -136,7 +136,8 @@ pub async fn run_conc(cfg: RunCfg) -> RunResult {
             continue;
         }
         let round_has_index = !r.st.indices.is_empty() || plans.iter().any(|(_, _, op)| matches!(op, Op::CreateIndex { .. }));
-        if round_has_index && plans.iter().any(|(_, _, op)| op.kind() == "merge_partial") {
+        let earlier_partial = r.res.kinds.iter().any(|k| k.ends_with("merge_partial"));
+        if round_has_index && (earlier_partial || plans.iter().any(|(_, _, op)| op.kind() == "merge_partial")) {
             r.seen_col_rewrite = true;
         }
         for (a, rv, op) in plans.iter() {
